@@ -18,7 +18,6 @@ from liquid.exceptions import LiquidSyntaxError
 from liquid.parser import get_parser
 from liquid.stream import TokenStream
 from liquid.tag import Tag
-from liquid.token import TOKEN_EOF
 from liquid.token import TOKEN_EXPRESSION
 from liquid.token import TOKEN_ILLEGAL
 from liquid.token import TOKEN_TAG
@@ -111,27 +110,25 @@ class LiquidTag(Tag):
 
     def parse(self, stream: TokenStream) -> Node:
         """Parse tokens from _stream_ into an AST node."""
-        token = stream.eat(TOKEN_TAG)
-        token_: Optional[Token] = None
+        token = stream.expect(TOKEN_TAG)
 
-        if stream.current.kind == TOKEN_EOF:
-            # Empty liquid tag. Empty block.
-            block = BlockNode(token, [])
-        elif stream.current.kind == TOKEN_TAG:
-            parser = get_parser(self.env)
-            block = parser.parse_block(stream, end=())
-        else:
-            token_ = stream.expect(TOKEN_EXPRESSION)
-            block = get_parser(self.env).parse_block(
-                TokenStream(
-                    self._tokenize(
-                        token_.value,
-                        token=token_,
-                    ),
-                    block_depth_carry=stream.block_depth,
+        if stream.peek.kind != TOKEN_EXPRESSION:
+            # Empty liquid tag. Empty block. Whatever follows belongs to the
+            # enclosing block.
+            return self.node_class(token, None, block=BlockNode(token, []))
+
+        next(stream)
+        token_ = stream.expect(TOKEN_EXPRESSION)
+        block = get_parser(self.env).parse_block(
+            TokenStream(
+                self._tokenize(
+                    token_.value,
+                    token=token_,
                 ),
-                end=(),
-            )
+                block_depth_carry=stream.block_depth,
+            ),
+            end=(),
+        )
 
         return self.node_class(token, token_, block=block)
 
